@@ -590,7 +590,7 @@ impl<'s, I: Kind<'s>> Er<'s, I> for Rich<'s, I::Tok, I::Spn> {
         Rich::custom(
             self.span().clone(),
             // `found` is left out: it is unspecified for a labelled user-supplied error
-            format!("M{}[{:?}|{:?}]", tag, d.expected, d.custom),
+            crate::grammar::map_err_marker(tag, &d.expected, &d.custom),
         )
     }
 }
@@ -905,10 +905,16 @@ pub struct CountIter {
     toks: Rc<Vec<char>>,
     i: usize,
     pub log: Rc<std::cell::RefCell<Vec<u32>>>,
+    /// report the size hint of a filtering / generating iterator -- (0, None) -- instead of the exact one (a lexer
+    /// iterator knows nothing about how many tokens are left; only for Streams that do not need ExactSizeIterator)
+    loose: bool,
 }
 impl CountIter {
     pub fn new(toks: &[char]) -> CountIter {
-        CountIter { toks: Rc::new(toks.to_vec()), i: 0, log: Rc::new(std::cell::RefCell::new(Vec::new())) }
+        CountIter { toks: Rc::new(toks.to_vec()), i: 0, log: Rc::new(std::cell::RefCell::new(Vec::new())), loose: false }
+    }
+    pub fn loose(toks: &[char]) -> CountIter {
+        CountIter { loose: true, ..CountIter::new(toks) }
     }
 }
 impl Iterator for CountIter {
@@ -922,6 +928,9 @@ impl Iterator for CountIter {
         r
     }
     fn size_hint(&self) -> (usize, Option<usize>) {
+        if self.loose {
+            return (0, None);
+        }
         let n = self.toks.len() - self.i;
         (n, Some(n))
     }
